@@ -24,6 +24,13 @@ Proof. exact (rank_chop_minimal q thr2). Qed.
 Theorem C01_rank_chop_zero (q : list T) pos thr2 : ole (sumT q) oz -> rank_chop q pos thr2 = 1%nat.
 Proof. exact (rank_chop_zero q pos thr2). Qed.
 
+(* the decision is a property of the RELATIVE spectrum: a common positive factor on the squared singular values and on the squared threshold changes
+   nothing. rank_chop uses it (s / max|s|, eps / max|s|) so that the squares of very small / very large singular values neither underflow nor overflow;
+   this theorem is why that is the same function in exact arithmetic (and Translated/RankChopSrcP.v proves the current source equal to the model with it) *)
+Theorem C01_rank_chop_scale_invariant (c : T) (q : list T) pos thr2 : oltb oz c = true ->
+  rank_chop (map (omul c) q) pos (omul c thr2) = rank_chop q pos thr2.
+Proof. exact (rank_chop_scale c q pos thr2). Qed.
+
 (* one bond of the sweep, threshold eps/sqrt(d-1) * ||remainder||:  (d-1) * discarded <= eps^2 * ||remainder||^2 *)
 Theorem C01_bond_allowance dm1 (q : list T) pos eps2 : q <> [] -> Forall (ole oz) q -> ole oz eps2 ->
   let r := rank_chop (map (omul (ofnat dm1)) q) pos (omul eps2 (sumT q)) in
@@ -93,6 +100,7 @@ End C01_sweep.
 Print Assumptions C01_rank_chop_range.
 Print Assumptions C01_rank_chop_tail.
 Print Assumptions C01_rank_chop_minimal.
+Print Assumptions C01_rank_chop_scale_invariant.
 Print Assumptions C01_rank_chop_zero.
 Print Assumptions C01_bond_allowance.
 Print Assumptions C01_sweep_budget.
